@@ -15,8 +15,10 @@ import vlib
 # TLC on the design
 
 
-def mc_cfg(family, maxlen, bs, trailing=True, blocking=False, props=True, liveness=False):
-    inv = "TypeOK PrefixOrder OutputCorrect SuccessDeterministic ErrorNotLost SuccessMeansClean FailDeterministic"
+def mc_cfg(family, maxlen, bs, trailing=True, blocking=False, props=True, liveness=False, invariants=None):
+    inv = invariants or "TypeOK PrefixOrder OutputCorrect SuccessDeterministic ErrorNotLost SuccessMeansClean FailDeterministic"
+    if family == "tailf" and not invariants:
+        inv += " TailF"
     lines = [
         "SPECIFICATION %s" % ("FairSpec" if liveness else "Spec"),
         "CONSTANTS",
@@ -35,8 +37,8 @@ def mc_cfg(family, maxlen, bs, trailing=True, blocking=False, props=True, livene
     return "\n".join(lines) + "\n"
 
 
-def run_mc(family, maxlen, bs, trailing=True, blocking=False, liveness=False, timeout=3000, workers=None):
-    cfgtext = mc_cfg(family, maxlen, bs, trailing, blocking, liveness=liveness)
+def run_mc(family, maxlen, bs, trailing=True, blocking=False, liveness=False, timeout=3000, workers=None, invariants=None):
+    cfgtext = mc_cfg(family, maxlen, bs, trailing, blocking, liveness=liveness, invariants=invariants)
     r = vlib.tlc("MCPipeline", cfg="gen.cfg", extra_files={"gen.cfg": cfgtext}, timeout=timeout, workers=workers)
     return r
 
